@@ -52,3 +52,24 @@ Theorem C11_F16_double_subtraction_refuted_before_fix : cidr_count_prefix true f
 Proof. exact F16_prefix_refuted. Qed.
 Example C11_fixed_witnesses : pool_capacity f3_pool F6 = max_i64 /\ cidr_count true f16_cidr = Some 0.
 Proof. split; [exact F3_fixed|exact F16_fixed]. Qed.
+
+(* ---- the closed form used by poolCount is the number of usable addresses ---- *)
+From Verif Require Import Proofs.AllocPolicyP Proofs.AllocFormulaP.
+
+(* for every CIDR: what poolCount computes (2^(bits-len), minus 2 per /24 for
+   prefixes up to /24, minus the buggy first/last address for longer ones, a /32
+   counted once) equals the length of the list of its addresses that are not
+   avoided *)
+Theorem C11_poolcount_formula : forall avoid c n,
+  (plen c <= width (pfam c))%N -> cidr_count avoid c = Some n ->
+  n = Z.of_nat (length (filter (usable avoid) (cidr_addrs c))).
+Proof. exact poolcount_formula. Qed.
+
+(* assigned never exceeds the exact number of usable addresses of the pool, so
+   "available" is never negative (below the saturation bound) *)
+Theorem C11_assigned_le_capacity : forall a n p f m,
+  Inv a -> PoolCoh a -> NoDup (map p_name (by_name (s_pools a))) ->
+  find_pool (s_pools a) n = Some p -> wf_pool_lens p ->
+  exact_sum (p_avoid p) f (p_cidrs p) = Some m ->
+  assigned a n f <= m.
+Proof. exact assigned_le_capacity. Qed.
